@@ -72,7 +72,7 @@ pub const TOKEN_ATTRS: [&str; 40] = [
 
 pub const ODD_IDENTS: [&str; 14] = ["__", "_1", "_", "é", "über_cmd", "r#fn", "r#type", "a_", "_a_", "x__y", "Ünï", "漢字", "__proto__", "a1_2b"];
 
-pub const TYPE_VARIANTS: [&str; 24] = [
+pub const TYPE_VARIANTS: [&str; 32] = [
     "[u8; 4]",
     "[String]",
     "&[u8]",
@@ -97,6 +97,14 @@ pub const TYPE_VARIANTS: [&str; 24] = [
     "Result<(), Box<dyn std::error::Error>>",
     "std::pin::Pin<Box<dyn std::future::Future<Output = Result<Item, String>> + Send + 'static>>",
     "HashMap<String, [Option<(u8, &'static [Item])>; 3]>",
+    "über::Typ",
+    "名前::Typ",
+    "crate::модуль::Тип",
+    "models::Größe",
+    "é::é::É<é::É>",
+    "Vec<ü::Ü>",
+    "(a::B, ü::C)",
+    "😀",
 ];
 
 #[derive(Debug, Clone, Serialize, Deserialize)]
